@@ -1,10 +1,7 @@
-HOOK_COMMITS = []
-NOTES = "See DESIGN.md. Every check = Lean theorems (audited with #print axioms) + correspondence run against /repo's working tree."
-NOT_APPLICABLE = {}
-CHECKS = {
-    "C06": {
-        "text": "Lean theorems C06_partition / C06_exactly_one_shard / C06_route_deterministic / C06_dispatch prove, for every routing function, shard count and batch, that the model of MetricMap.Split is the partition induced by the routing function; the correspondence run compares the real Split piece by piece with the compiled model on generated batches and evaluates the partition specification on the real output.",
-        "note": "Trusted: Lean kernel; the hand-written model's faithfulness is as strong as the correspondence run (generated maps, shard counts 1..64 and 4096); adler32 routing is an oracle (any function of (key, n) satisfies the property); DispatchMetricMap's worker indexing is modelled (C06_dispatch) and exercised through C01.",
-        "technique": "Lean 4 proof over an association-list model + differential correspondence with the real Split",
-    },
-}
+import json, os
+from props import PROPS
+_ROOT = os.path.dirname(os.path.dirname(os.path.abspath(__file__)))
+HOOK_COMMITS = json.load(open(os.path.join(_ROOT, "lib", "hooks.json")))
+NOTES = "See DESIGN.md. Every check = Lean theorems (audited with #print axioms on every run) + correspondence run against /repo's working tree."
+NOT_APPLICABLE = json.load(open(os.path.join(_ROOT, "lib", "not_applicable.json")))
+CHECKS = {pid: p["manifest"] for pid, p in PROPS.items() if "manifest" in p and not p.get("disabled")}
